@@ -38,6 +38,8 @@ def cases(tier, seed):
         xl0 = -xls * (nX - 1) if xl0 == 'to0' else xl0
         src = conv.src_desc(rng, '3d', (nI, nX, nZ), il=[il0, ils], xl=[xl0, xls], fmt=5, valkind='smooth', dt=rng.choice([4000, 2000, 1000]), t0=rng.choice([0, 8, -8, -4]),
                             hdr={'seed': rng.randrange(1 << 20), 'nfields': rng.randint(1, 3), 'inside': True}, interval_hdr=[None, None, 'bin-zero', 'bin-differs', 'trace-zero'][i % 5])
+        if i % 10 == 7:
+            src['text_special'] = True
         rate_, bs_ = rng.choice([16, 8, 4]), rng.choice([[4, 4, -1], [4, 4, -1], [8, 8, -1]])
         if i % 5 == 3:
             # traces longer than one disk block of the default layout (depth slices beyond the first block)
@@ -92,6 +94,10 @@ def ordinal_exprs(name, n, rng, k, wrap=None):
         ex.append((wrap % ('f.%s[%d]' % (name, v)), '%s[int]' % name))
     for v in (n, n + 3, -n - 1, -n - 5):
         ex.append((wrap % ('f.%s[%d]' % (name, v)), '%s[out-of-range]' % name))
+    # the ordinal carried by a NumPy integer of the narrowest width that holds it
+    for v in (n - 1, rng.randrange(n), -rng.randrange(1, n + 1)):
+        dt_ = next(d_ for d_ in ('uint8', 'int8', 'int16', 'int32') if np.iinfo(d_).min <= v <= np.iinfo(d_).max)
+        ex.append((wrap % ('f.%s[np.%s(%d)]' % (name, dt_, v)), '%s[numpy-int]' % name))
     lw = '[np.copy(x) for x in %s]' if wrap == '%s' else '[dict(x) for x in %s]'
     ex.append(('len(f.%s)' % name, 'len(%s)' % name))
     for _ in range(k):
@@ -108,7 +114,8 @@ def ordinal_exprs(name, n, rng, k, wrap=None):
 def gen_exprs(src, rng, n):
     il, xl = src['ilines'], src['xlines']
     nI, nX, nZ = src['data'].shape
-    ex = [('f.ilines', 'ilines'), ('f.xlines', 'xlines'), ('f.samples', 'samples'), ('f.tracecount', 'tracecount'), ('dict(f.bin)', 'bin'), ('bytes(f.text[0])', 'text[0]'),
+    ex = [('f.ilines', 'ilines'), ('f.xlines', 'xlines'), ('f.samples', 'samples'), ('f.tracecount', 'tracecount'), ('dict(f.bin)', 'bin'),
+          ('bytes(f.text[0])', 'text[0]' if not src['desc'].get('text_special') else 'text[0]:punctuation-outside-cp037'),
           ('TOOLS.dt(f)', 'tools.dt'), ('TOOLS.cube(PATH)', 'tools.cube'), ('f.unstructured', 'unstructured')]
     ex += line_exprs('iline', il, rng, 12)
     ex += line_exprs('xline', xl, rng, 12)
@@ -254,7 +261,7 @@ def run_case(case, ctx):
 def finalize(tier, cases, results, counters, strata):
     reasons = []
     need = ['axes:ilasc,xlasc', 'axes:ildesc,xlasc', 'axes:ildesc,xldesc', 'form:line[present]:asc', 'form:line[present]:desc', 'form:line[absent]:asc', 'form:line[:]:asc',
-            'form:line[:]:desc', 'form:iter(line):asc', 'form:iter(line):desc', 'form:depth_slice[int]', 'form:trace[slice]', 'form:header[slice]', 'form:attributes[a:b]',
+            'form:line[:]:desc', 'form:iter(line):asc', 'form:iter(line):desc', 'form:depth_slice[int]', 'form:trace[slice]', 'form:header[slice]', 'form:trace[numpy-int]', 'form:header[numpy-int]', 'form:attributes[a:b]',
             'form:bin', 'form:text[0]', 'form:tools.dt', 'form:tools.cube', 'form:subvolume[a:b:c]', 'form:subvolume[bound=0]', 'interval-hdr:bin-zero', 'interval-hdr:bin-differs', 'interval-hdr:trace-zero', 'footer-pages:exact']
     for s in need:
         if s not in strata:
